@@ -121,6 +121,17 @@ def r1(F, R):
             bad = [b.locals[p] for p in sl.params if re.match(r"event::(Step|Hook|Metadata)\b", b.locals[p])]
             R.check(not bad, f"name-args-event-independent/{b.short.rsplit('::', 1)[-1]}", cs, "name depends on feature/rule/scenario/step/retries only",
                     f"the test-case name depends on {bad}: it differs between the `started` line and the result line")
+            # ... and it names the ATTEMPT: the `Option<Retries>` it is given is the event's own (steps and hooks alike) — with a constant every
+            # attempt of a retried scenario emits the same name: started N times, failures not attributable to their attempt
+            for i, a in enumerate(ct["args"]):
+                cbn = F.callee_body(ct, b.crate)
+                ty = cbn.locals[i + 1] if cbn is not None and i + 1 < len(cbn.locals) else ""
+                if not re.search(r"Option<event::Retries>", ty):
+                    continue
+                ds = A.deep_slice(F, b, [a])
+                from_ev = ("event::RetryableScenario", "retries") in ds.fields or any(re.search(r"Option<event::Retries>", F.bodies[k].locals[pi]) for k, pi in ds.root_params if k in F.bodies)
+                R.check(from_ev, f"name-carries-attempt/{b.short.rsplit('::', 1)[-1]}", cs, "the name is given the event's own retries",
+                        "the test-case name of this event is built without the attempt's retry counter: all attempts of a retried scenario share one name")
     # every constructor's name arg comes from the name fn (or from a formatted parser-error name)
     for b, s, t, v in calls:
         sl = A.slice_back(b, [t["args"][0]])
@@ -1450,4 +1461,37 @@ def r15(F, R):
     R.floor(1)
 
 
-RULES = [("R15", r15, ["all", "junit"]), ("R14", r14, None), ("R13", r13, None), ("R12", r12, None), ("R11", r11, None), ("R10", r10, ["all", "json"]), ("R9", r9, None), ("R8", r8, ["all", "junit"]), ("R7", r7, ["all", "json"]), ("R6", r6, ["all", "json"]), ("R5", r5, ["all", "junit"]), ("R1", r1, None), ("R2", r2, None), ("R3", r3, None), ("R4", r4, None)]
+def r16(F, R):
+    """libtest: events that arrive before ParsingFinished are held back and replayed in arrival order — every operation on the held-back
+    buffer (the `Vec` field of the writer that event values are pushed into) appends at the end or takes / iterates front to back; nothing
+    pops from the back, reverses, sorts or removes out of order (a `started` line would follow its result line)."""
+    if LT not in {(b.impl or {}).get("self_adt") for b in F.crate_bodies()}:
+        return
+    root, bodies = W.handler_bodies(F, LT)
+    info = F.adt(LT)
+    vecs = [f["name"] for f in info["variants"][0]["fields"] if re.match(r"std::vec::Vec<", f.get("ty", "")) and "event::" in f.get("ty", "")]
+    if len(vecs) != 1:
+        raise Unverifiable(f"libtest: the held-back event buffer: {vecs}")
+    buf = vecs[0]
+    OKOPS = r"(Vec::<.*>::(push|extend|append|len|is_empty|iter|drain|clear|capacity|reserve|with_capacity|new)|mem::take|IntoIterator::into_iter|Iterator::(chain|next|for_each|map)|iter::once|Deref::deref|DerefMut::deref_mut|Default::default|slice::.*::iter)$"
+    BAD = r"(Vec::<.*>::(pop|remove|swap_remove|insert|reverse|sort\w*|dedup\w*|retain|truncate|split_off|swap)|Iterator::rev|slice::.*::(reverse|sort\w*|rev\w*))$"
+    n, bad = 0, []
+    for b in bodies:
+        for s_, t in b.calls():
+            if not t["args"]:
+                continue
+            if (LT, buf) not in A.slice_back(b, [t["args"][0]]).fields:
+                continue
+            n += 1
+            cp = callee_path(t) or ""
+            if re.search(BAD, cp):
+                bad.append((s_, re.sub(r"<.*?>", "", cp).rsplit("::", 2)[-1]))
+    for s_, nm in bad:
+        R.violation(f"libtest/held-back-events-in-order/{nm}", s_, f"the buffer of held-back events is accessed with `{nm}`: events that arrived before ParsingFinished are "
+                    f"replayed out of order (a result line before its `started` line)")
+    if not bad:
+        R.check(n >= 2, "libtest/held-back-events-in-order", root, f"{n} operations on `{buf}`, all appending or front-to-back", f"only {n} operations on the held-back buffer found")
+    R.floor(1)
+
+
+RULES = [("R16", r16, ["all", "libtest"]), ("R15", r15, ["all", "junit"]), ("R14", r14, None), ("R13", r13, None), ("R12", r12, None), ("R11", r11, None), ("R10", r10, ["all", "json"]), ("R9", r9, None), ("R8", r8, ["all", "junit"]), ("R7", r7, ["all", "json"]), ("R6", r6, ["all", "json"]), ("R5", r5, ["all", "junit"]), ("R1", r1, None), ("R2", r2, None), ("R3", r3, None), ("R4", r4, None)]
